@@ -351,6 +351,25 @@ fn build_set(ch: &mut Choices<'_>, p: Params) -> SetModel {
         let items = (0..n).map(|_| SetItem::Bytes(gen_.bytes_lit(false))).collect();
         leaf(&b0, vec![], MOp::In(items))
     };
+    // a large set written in unsorted order (lazily prepared lookup structures
+    // would have a wide first-use window)
+    let big = {
+        let k = gen_.ch.draw(50) as i64;
+        let mut items = Vec::new();
+        for i in 0..300i64 {
+            let v = ((i * 7919 + k) % 1009) * 3 - 1500;
+            if i % 17 == 0 {
+                items.push(SetItem::IntRange(IntLit::dec(v), IntLit::dec(v + 1)));
+            } else {
+                items.push(SetItem::Int(IntLit::dec(v)));
+            }
+            if i % 40 == 0 {
+                gen_.hints.ints.push(v);
+                gen_.hints.ints.push(v + 2);
+            }
+        }
+        leaf(&n0, vec![], MOp::In(items))
+    };
     let l1 = leaf(&n0, vec![], list_op(&mut gen_, &MType::Int));
     let l2 = leaf(&b0, vec![], list_op(&mut gen_, &MType::Bytes));
     let w1 = leaf(&b0, vec![], wildcard_op(&mut gen_));
@@ -377,6 +396,7 @@ fn build_set(ch: &mut Choices<'_>, p: Params) -> SetModel {
         (c2, "t:contains"),
         (i1, "t:in-set"),
         (i2, "t:in-set"),
+        (big, "t:in-set-large"),
         (ipset, "t:in-set-ip"),
         (bset, "t:in-set-bytes"),
         (l1, "t:in-list"),
@@ -409,7 +429,23 @@ fn build_set(ch: &mut Choices<'_>, p: Params) -> SetModel {
         texts.push(print_expr(e, &Style { alias, space }));
     }
     let lists = g::gen_lists(gen_.ch, &recipe, &hints);
-    let ctxs: Vec<MCtx> = (0..p.nctx).map(|_| g::gen_ctx(gen_.ch, &recipe, &hints)).collect();
+    let mut ctxs: Vec<MCtx> = (0..p.nctx).map(|_| g::gen_ctx(gen_.ch, &recipe, &hints)).collect();
+    // every other context carries a long (>= 80 bytes) value in the shared bytes
+    // field, different per context (per-filter caches keyed on large inputs)
+    if let Some((bi, _)) = recipe.field(&b0) {
+        for (i, c) in ctxs.iter_mut().enumerate() {
+            if i % 2 == 1 {
+                if let Some(MVal::Bytes(v)) = &mut c.vals[bi] {
+                    let fill = b"abcdefghijklmnopqrstuvwxyzABCDEFGHIJKLMNOPQRSTUVWXYZ0123456789";
+                    let mut k = i;
+                    while v.len() < 80 + i {
+                        v.push(fill[k % fill.len()]);
+                        k = k.wrapping_mul(7).wrapping_add(3);
+                    }
+                }
+            }
+        }
+    }
     let feats = exprs
         .iter()
         .map(|(e, _)| {
@@ -822,6 +858,55 @@ fn set_case(p: Params, ch: &mut Choices<'_>, st: &mut Stats) -> CaseResult {
             msg,
             m.show(Some(&fs), Some(&cs)),
         ));
+    }
+    // first executions of freshly compiled (never executed) filters, raced
+    // across 16 threads released by a barrier, several times
+    let race_rounds = if p.rounds >= 100 { 24 } else { 6 };
+    let nctx = eng.ecs.len();
+    for round in 0..race_rounds {
+        let fresh = compile_all(&m, &eng)?;
+        let barrier = std::sync::Barrier::new(16);
+        let bad: std::sync::Mutex<Option<(usize, usize, u8)>> = std::sync::Mutex::new(None);
+        let _permit = acquire_cores(16);
+        std::thread::scope(|s| {
+            for tid in 0..16usize {
+                let fresh = &fresh;
+                let eng = &eng;
+                let base = &base;
+                let barrier = &barrier;
+                let bad = &bad;
+                s.spawn(move || {
+                    barrier.wait();
+                    for k in 0..nf {
+                        let f = (k + tid * 3 + round) % nf;
+                        for j in 0..2 {
+                            let c = (tid + j * 5 + round) % nctx;
+                            let (code, _) = exec(&fresh[f], &eng.ecs[c]);
+                            if code != base[f * nctx + c] {
+                                let mut b = bad.lock().unwrap();
+                                if b.is_none() {
+                                    *b = Some((f, c, code));
+                                }
+                            }
+                        }
+                    }
+                });
+            }
+        });
+        st.evals_n((16 * nf * 2) as u64);
+        st.class_n("first-executions-raced", (16 * nf * 2) as u64);
+        if let Some((f, c, code)) = *bad.lock().unwrap() {
+            return Err(Fail::new(
+                "first-execution-race-differs",
+                format!(
+                    "filter #{f} {:?} freshly compiled and first executed by 16 threads at once returned {} on context #{c}, the sequential result is {}",
+                    m.texts[f],
+                    code_name(code),
+                    code_name(base[f * nctx + c])
+                ),
+                m.show(Some(&[f]), Some(&[c])),
+            ));
+        }
     }
     // measurement
     let sf = m.set_feat();
